@@ -461,11 +461,8 @@ func parseStops(csv *csv.File, inheritWheelchairBoarding bool) []Stop {
 	stopIdToParent := map[string]string{}
 	for csv.NextRow() {
 		stopID := idColumn.Read()
-		hasParentStop := false
-		if parentStopId := parentStationColumn.Read(); parentStopId != "" {
-			stopIdToParent[stopID] = parentStopId
-			hasParentStop = true
-		}
+		parentStopId := parentStationColumn.Read()
+		hasParentStop := parentStopId != ""
 		stop := Stop{
 			Id:                 stopID,
 			Code:               codeColumn.Read(),
@@ -483,6 +480,9 @@ func parseStops(csv *csv.File, inheritWheelchairBoarding bool) []Stop {
 		if missingKeys := csv.MissingRowKeys(); len(missingKeys) > 0 {
 			log.Printf("Skipping stop %+v because of missing keys %s", stop, missingKeys)
 			continue
+		}
+		if hasParentStop {
+			stopIdToParent[stop.Id] = parentStopId
 		}
 		stopIdToIndex[stop.Id] = len(stops)
 		stops = append(stops, stop)
